@@ -100,7 +100,8 @@ fn blank(profile: &str, r: &mut Rng, flags: FlagsS, max_ticks: u32) -> MScn {
 
 /// Soup workload: random instruction words around PC, boundary-aimed registers.
 pub fn gen_soup(r: &mut Rng, profile: &str, debug_frames: bool) -> MScn {
-    let max_ticks = 40 + r.below(260) as u32;
+    let deep = r.deep();
+    let max_ticks = (40 + r.below(260) as u32) * deep;
     let flags = FlagsS { strict: false, real_traps: r.bool(), debug_frames, ignore_privilege: r.chance(1, 4), init: gen_init(r) };
     let mut s = blank(profile, r, flags, max_ticks);
     let supervisor = r.chance(1, 4);
@@ -110,7 +111,7 @@ pub fn gen_soup(r: &mut Rng, profile: &str, debug_frames: bool) -> MScn {
     } else if r.chance(1, 6) {
         s.psr = Some(0x8000 | (r.below(8) as u16) << 8 | *r.pick(&[1u16, 2, 4]));
     }
-    let n = 4 + r.below(28) as usize;
+    let n = (4 + r.below(28) as usize) * deep as usize;
     s.pokes.push((s.pc, (0..n).map(|_| soup_word(r)).collect()));
     for _ in 0..r.below(3) {
         let a = user_addr(r);
@@ -202,7 +203,7 @@ pub fn gen_soup(r: &mut Rng, profile: &str, debug_frames: bool) -> MScn {
 
 /// Structured workload: generated source programs using traps, calls, stack, I/O.
 pub fn gen_structured(r: &mut Rng, profile: &str, debug_frames: bool, end: EndKind) -> MScn {
-    let max_ticks = 300 + r.below(1500) as u32;
+    let max_ticks = (300 + r.below(1500) as u32) * r.deep();
     let flags = FlagsS { strict: false, real_traps: r.bool(), debug_frames, ignore_privilege: r.chance(1, 8), init: gen_init(r) };
     let mut s = blank(profile, r, flags, max_ticks);
     let mut o = ProgOpts::basic(6 + r.below(30) as usize);
@@ -238,7 +239,8 @@ pub fn gen_structured(r: &mut Rng, profile: &str, debug_frames: bool, end: EndKi
 /// C09: adversarial user-mode programs aiming every addressing mode at boundary addresses.
 pub fn gen_adversarial(r: &mut Rng) -> MScn {
     use crate::genr::enc;
-    let max_ticks = 30 + r.below(80) as u32;
+    let deep = r.deep();
+    let max_ticks = (30 + r.below(80) as u32) * deep;
     let control = r.chance(1, 8); // control arm: ignore_privilege on, everything must be allowed
     let flags = FlagsS { strict: false, real_traps: r.bool(), debug_frames: false, ignore_privilege: control, init: gen_init(r) };
     let mut s = blank("C09", r, flags, max_ticks);
@@ -258,7 +260,7 @@ pub fn gen_adversarial(r: &mut Rng) -> MScn {
             _ => user_addr(r),
         }
     };
-    let n = 3 + r.below(10) as usize;
+    let n = (3 + r.below(10) as usize) * deep as usize;
     let mut words = vec![];
     // pointer cells in user memory for LDI/STI
     let ptr_cell = 0x5000 + r.below(0x100) as u16;
